@@ -55,6 +55,34 @@ pub fn run(ctx: &mut Ctx) {
         };
         let per_iter: u64 = if method == SolveMethod::External { 2 } else { 1 };
         let passes = |o: &solve::Out| o.events.iter().filter(|e| matches!(e, cfr::verif::Event::Pass { .. })).count() as u64;
+        // budget 0 (every threshold): "the budget is never exceeded" - no traversal may run
+        {
+            let r0 = *rng.pick(&[0.0, 1e9, f64::NAN, f64::INFINITY, -1.0, 1e-9]);
+            let cfg = Cfg { method, iters: 0, max_reg: r0, threads, params };
+            ctx.mark(idx, &cfg.describe());
+            match solve::run(&prep, &cfg, hook()) {
+                Outcome::Ok(out) => {
+                    ctx.count("zero-budget-runs", 1);
+                    if passes(&out) != 0 {
+                        ctx.violation(
+                            idx,
+                            &format!("C09:zero-budget-exceeded:{}{}", gen::method_name(method), if threads > 1 { ":multi" } else { "" }),
+                            &format!("{}: {} traversal(s) ran with an iteration budget of 0 (bound returned {}) on {}", cfg.describe(), passes(&out), out.total_bound, desc),
+                            json!({"game": tree.to_json(), "cfg": cfg.describe(), "desc": desc}),
+                        );
+                        return;
+                    }
+                }
+                Outcome::Err(_) => {
+                    ctx.inconclusive("thread-spawn-error");
+                    return;
+                }
+                Outcome::Panic(msg) => {
+                    ctx.violation(idx, "C09:panic", &format!("{} panicked: {}", cfg.describe(), msg), json!({"game": tree.to_json()}));
+                    return;
+                }
+            }
+        }
         // the unthresholded runs with budgets 1..=N
         let mut seq: Vec<Box<solve::Out>> = Vec::new();
         for t in 1..=budget {
@@ -213,7 +241,7 @@ pub fn run(ctx: &mut Ctx) {
         }
     });
     ctx.finish(crate::report::extra(
-        "cases = (game, method, parameters, budget N, threads, threshold r): for each game/method/parameter set the harness first runs solve(m, t, 0) for t = 1..N (N in 1..12, sometimes 40) to obtain the bound sequence b_1..b_N and results S_1..S_N, then runs solve(m, N, r) for r in {0,-0,-1,NaN,+-inf} and b_t, next_up(b_t), next_down(b_t), 1.5 b_t, midpoints of neighbours, and requires the result to be S_{t*} with t* = first t with b_t < r else N (also with budgets u64::MAX, u64::MAX-1, 2^63 and N+1 paired with a threshold reached within N iterations): bit-identical with one thread, within 1e-9 with four threads (thresholds within 1e-9 relative of some b_t are then don't-care; a difference is inconclusive if a logged run of the configuration passes within 1e-9 of a regret-matching discontinuity, as in C06/C07), and bound < r whenever t* < N. Independently of the bounds, the number of traversals that ran (pass markers, hook H3) must be t for every threshold-0 run with budget t and t* for every thresholded one-thread run. Sampled and External run under seeded sampling decisions (hook H2) so that the draw at (infoset, pass) is a pure function. distinct = hash(tree, configuration incl. threshold, sampling seed); non-trivial = game has a decision infoset.",
+        "cases = (game, method, parameters, budget N, threads, threshold r): for each game/method/parameter set the harness first runs solve(m, t, 0) for t = 1..N (N in 1..12, sometimes 40) to obtain the bound sequence b_1..b_N and results S_1..S_N, then runs solve(m, N, r) for r in {0,-0,-1,NaN,+-inf} and b_t, next_up(b_t), next_down(b_t), 1.5 b_t, midpoints of neighbours, and requires the result to be S_{t*} with t* = first t with b_t < r else N (also with budgets u64::MAX, u64::MAX-1, 2^63 and N+1 paired with a threshold reached within N iterations): bit-identical with one thread, within 1e-9 with four threads (thresholds within 1e-9 relative of some b_t are then don't-care; a difference is inconclusive if a logged run of the configuration passes within 1e-9 of a regret-matching discontinuity, as in C06/C07), and bound < r whenever t* < N. Independently of the bounds, the number of traversals that ran (pass markers, hook H3) must be t for every threshold-0 run with budget t, t* for every thresholded one-thread run, and 0 for a run with budget 0 whatever the threshold (one per case, 1 or 4 threads). Sampled and External run under seeded sampling decisions (hook H2) so that the draw at (infoset, pass) is a pure function. distinct = hash(tree, configuration incl. threshold, sampling seed); non-trivial = game has a decision infoset.",
         &["seeded sampling feeds the production samplers from a deterministic generator keyed by (seed, site, infoset, pass)"],
     ));
 }
